@@ -1033,6 +1033,23 @@ impl<'a> Gen<'a> {
                 }
                 Stmt::Line(self.text_line(sc, false))
             }
+            9 if self.p.threads && sc.kind == KnotKind::Plain && !in_func && self.t.chance(1, 2) => {
+                // a thread started in the middle of a knot: its text and choices come first,
+                // then the knot goes on (other threads and more lines may follow)
+                let tt: Vec<String> = self
+                    .knots
+                    .iter()
+                    .enumerate()
+                    .filter(|(j, k)| k.kind == KnotKind::ThreadTarget && sc.kidx.map(|i| *j > i).unwrap_or(true))
+                    .map(|(_, k)| k.name.clone())
+                    .collect();
+                if tt.is_empty() {
+                    Stmt::Line(self.text_line(sc, false))
+                } else {
+                    let k = self.t.pick(tt.len());
+                    Stmt::Thread(tt[k].clone())
+                }
+            }
             8 if self.p.block_sequences && !in_func && self.t.chance(1, 2) => {
                 let kind = match self.t.pick(3) {
                     0 => SeqKind::Stopping,
